@@ -23,7 +23,8 @@ def vectors(ctx, states):
         fe = cprgen.frame(rng, rng.randint(5, 8), 0, c["e0"]["yz"], c["e0"]["xz"])
         fo = cprgen.frame(rng, rng.randint(5, 8), 1, c["e1"]["yz"], c["e1"]["xz"])
         truth = [[c["a0"], c["o0"]], [c["a1"], c["o1"]]]
-        offs = RX if not ctx.quick else [RX[0], RX[1 + k % 6], RX[1 + (k // 6) % 6]]
+        # thorough: all seven receiver offsets for every third case, three (rotating) for the others
+        offs = RX if (not ctx.quick and k % 3 == 0) else [RX[0], RX[1 + k % 6], RX[1 + (k // 6) % 6]]
         for off in offs:
             if abs(cprgen.rx20(c["a0"]) + off[0]) > 262144:
                 continue
